@@ -28,6 +28,22 @@ PROPS = {
     },
 }
 
+PROPS["C16"] = {
+    "parts": [part("TestVerifC16", q=8, t=16)],
+    "level": "exploration",
+    "engine": "E7 refmodel",
+    "technique": "law-based runtime monitor (round-trip, reflexivity, symmetry, DeepEqual=>Equal, codec inverse, size rejection) over seeded generated candidates, mutated/random texts and attribute byte strings, panics recovered per case",
+    "level_text": "Seeded generation of candidates through the public constructors over type x transport x host TCP type x address form (v4, v6, v4-mapped, mDNS) x "
+                  "related-address form (absent, normal, 0.0.0.0:0, :::0, port 0, v6) x component x priority/foundation overrides x extension lists; every case is marshalled, "
+                  "parsed and compared getter by getter and with Equal/DeepEqual both ways; texts (seed corpus, 1-3 mutations, random) are checked for no-panic and "
+                  "accepted => re-marshal parses to an Equal/DeepEqual candidate; attribute codecs on boundary+random values and every raw size 0..40.",
+    "level_note": "Sampled, not exhaustive. Excluded on purpose as ambiguous: zoned IPv6 literals, components outside 1..255, extension bytes that are not valid UTF-8 or "
+                  "runes above U+00FF (the parser reads runes), empty extension values in constructed candidates, non-empty USE-CANDIDATE values.",
+    "rule": "cases = generated candidate specs (PRNG from VERIF_SEED) + texts + attribute values; distinct_nontrivial counts distinct candidate classes "
+            "(type/transport/address form/tcptype/related form/#extensions/overrides), distinct token-shapes of ACCEPTED texts, attribute value classes and (attribute,size) pairs",
+    "assumptions": ["extensions are compared as multisets", "nomination values >= 2^24 are outside the statement"],
+}
+
 ENGINES = [
     {"name": "E7 refmodel", "path": "harness/ice/vfc16.go, vfc17.go, vfc19.go", "serves_properties": ["C16", "C17", "C19"],
      "kind_free_text": "seeded/exhaustive generators + independent reference implementations evaluated in-process on the real functions"},
